@@ -69,6 +69,15 @@ pub fn full_alphabet() -> Vec<(String, Sym)> {
         for (label, h) in nonquery_hex() {
             v.push((format!("{label} src{src}"), vec![(src, format!("raw {h}"))]));
         }
+        // the application calls the API in the very millisecond in which queries arrive (12 rounds)
+        {
+            let mut sym: Sym = vec![];
+            for r in 0..12 {
+                sym.push((src, "api".to_string()));
+                sym.push((src, if r % 2 == 0 { "ping".to_string() } else { "gp 1 -".to_string() }));
+            }
+            v.push((format!("12 x (API calls + query in one ms) src{src}"), sym));
+        }
         // the socket reports a receive error (queued ICMP error, interrupted call); the queries after it
         // are queries like any other
         for kind in ["ConnectionReset", "ConnectionRefused", "Interrupted", "Other"] {
@@ -120,6 +129,8 @@ pub fn configs() -> Vec<NodeCfg> {
     v
 }
 
+const LINK_MS: u64 = 5;
+
 pub fn run_sequence(cfg: &NodeCfg, seq: &[&Sym], rng_seed: u64) -> (sim::RunResult, single::Findings) {
     run_sequence_at(cfg, seq, rng_seed, 0)
 }
@@ -129,13 +140,25 @@ pub fn run_sequence_at(cfg: &NodeCfg, seq: &[&Sym], rng_seed: u64, offset_ms: u6
     let mut b = single::build(cfg, 0, rng_seed);
     let mut t = b.ready_ms + 100 + offset_ms;
     for sym in seq {
-        for (k, (client, cmd)) in sym.iter().enumerate() {
-            if let Some(kind) = cmd.strip_prefix("recverr ") {
-                b.sc.actions.push((When::At(t + 20 * k as u64), Action::RecvError { node: 0, kind: kind.to_string() }));
+        let mut slot = 0u64;
+        for (client, cmd) in sym.iter() {
+            let at = t + 20 * slot;
+            if cmd == "api" {
+                // API calls of the application in the very millisecond in which the next datagram is delivered
+                // (PeerCommand emits at `at`, the link takes LINK_MS)
+                b.sc.actions.push((When::At(at + LINK_MS), Action::GetStateBurst { node: 0, n: 6 }));
+                b.sc.actions.push((When::At(at + LINK_MS), Action::LoadContacts { node: 0, tag: format!("api{at}") }));
                 continue;
             }
-            b.sc.actions.push((When::At(t + 20 * k as u64), Action::PeerCommand { peer: single::client_addr(*client), cmd: cmd.clone() }));
+            if let Some(kind) = cmd.strip_prefix("recverr ") {
+                b.sc.actions.push((When::At(at), Action::RecvError { node: 0, kind: kind.to_string() }));
+                slot += 1;
+                continue;
+            }
+            b.sc.actions.push((When::At(at), Action::PeerCommand { peer: single::client_addr(*client), cmd: cmd.clone() }));
+            slot += 1;
         }
+        t += 20 * slot.saturating_sub(5);
         t += 100;
     }
     b.sc.horizon_ms = t + 300;
